@@ -59,7 +59,8 @@ def obs_term(ob):
 
 
 def to_term(case, obs):
-    cs = [C("mkC", name(c["prefix"]), [(name(tn), trait(t)) for tn, t in c["traits"]]) for c in case["classes"]]
+    cs = [C("mkC", name(c["prefix"]), [(name(tn), trait(t)) for tn, t in c["traits"]],
+            [name(u) for u in c.get("unlisten", [])]) for c in case["classes"]]
     os_ = [C("mkO", Nat(o["cls"]), [(name(tn), value(v)) for tn, v in o["dict"]]) for o in case["objs"]]
     return (cs, os_, obs_term(obs[0]), [(op_term(op), obs_term(ob)) for op, ob in zip(case["ops"], obs[1:])])
 
@@ -88,10 +89,12 @@ def attr_name(case, r, o, n):
     return case["classes"][case["objs"][o]["cls"]]["prefix"] + n
 
 
-def chain_tags(case, before, o, n):
+def chain_tags(case, before, o, n, is_del=False):
     """Walks the whole chain from (o, n) on the observation before the step: which of the two recorded
     defect triggers it contains."""
     tags = set()
+    if is_del and n in case["classes"][case["objs"][o]["cls"]].get("unlisten", []):
+        tags.add("not-listenable")        # the recorded defect concerns deletion only
     origin_prefix = case["classes"][case["objs"][o]["cls"]]["prefix"]
     hop = 0
     for _ in range(8):
@@ -127,7 +130,7 @@ def key_fn(case, obs, step, clause):
     if step >= len(case["ops"]):
         return "%s/init" % CLAUSE.get(clause, clause)
     op = case["ops"][step]
-    tags = chain_tags(case, obs[step], op[1], op[2]) if trait_of(case, op[1], op[2]) else "plain"
+    tags = chain_tags(case, obs[step], op[1], op[2], op[0] == "Del") if trait_of(case, op[1], op[2]) else "plain"
     return "%s/%s/%s" % (CLAUSE.get(clause, clause), op_kind(case, op), tags)
 
 
@@ -137,7 +140,7 @@ def describe(case, obs, step, clause):
     op = case["ops"][step]
     return "deferred traits: clause %s fails at step %d op %r (%s, chain %s): before %r after %r" % (
         CLAUSE.get(clause, clause), step, op, op_kind(case, op),
-        chain_tags(case, obs[step], op[1], op[2]) if trait_of(case, op[1], op[2]) else "plain",
+        chain_tags(case, obs[step], op[1], op[2], op[0] == "Del") if trait_of(case, op[1], op[2]) else "plain",
         obs[step]["reads"], {k: obs[step + 1][k] for k in ("out", "events", "reads", "local")})
 
 
@@ -201,7 +204,10 @@ def gen_config(rnd, ctx, depth=None):
             if tuple(n) not in used:
                 used.add(tuple(n))
                 ts.append([n, ["Normal", rnd.choice(["KInt", "KRange", "KAny"]), rnd.randint(0, 50)]])
-        classes.append(dict(prefix=[prefix], traits=ts))
+        unlisten = [t[0] for t in ts[1:] if t[1][0] == "Deleg" and rnd.random() < 0.12]
+        for _ in unlisten:
+            ctx.count("style:listenable=False")
+        classes.append(dict(prefix=[prefix], traits=ts, unlisten=unlisten))
         level_names.append([t[0] for t in ts[1:]])
     objs, by_level = [], []
     for lvl in range(depth + 1):
@@ -303,6 +309,13 @@ def corpus():
                         ["Set", 2, [X, ITEMS], 14], ["Set", 2, [A], 15], ["Set", 0, [X, ITEMS], 16], ["Del", 2, [A]],
                         ["Set", 0, [X, ITEMS], 17], ["Set", 2, [PARENT], {"obj": 1}], ["Set", 1, [X, ITEMS], 18],
                         ["Set", 2, [R, ITEMS], 19]]))
+    # finding: del of a PrototypedFrom(..., listenable=False) attribute raises KeyError (with and without a local value)
+    ch_nl = dict(prefix=[PRE_], unlisten=[[X], [Y]],
+                 traits=[[[PARENT], ["Link"]], [[X], ["Deleg", [PARENT], ["Same"], False]],
+                         [[Y], ["Deleg", [PARENT], ["Explicit", [X]], True]], [[A], ["Deleg", [PARENT], ["Explicit", [X]], False]]])
+    cs.append(dict(classes=[par_a, ch_nl], objs=objs,
+                   ops=[["Set", 0, [X], 5], ["Set", 2, [X], 9], ["Set", 0, [X], 6], ["Del", 2, [X]], ["Del", 2, [X]],
+                        ["Set", 2, [Y], 7], ["Set", 2, [A], 3], ["Del", 2, [A]], ["Set", 0, [X], 8]]))
     # finding: class-prefix rule at the second hop is applied with the ORIGIN's class prefix when writing
     mid = dict(prefix=[Q_], traits=[[[PARENT], ["Link"]], [[B], ["Deleg", [PARENT], ["Class"], True]],
                                     [[R], ["Deleg", [PARENT], ["Same"], False]]])
@@ -328,7 +341,7 @@ def run(ctx):
     ]
     ctx.cov["rule"] = ("random configurations: chains of 1-3 deferring classes over a plain class, 2-5 deferring traits per "
                        "class in the four prefix styles (same name, explicit name, 'prefix*', '*' with __prefix__), "
-                       "DelegatesTo and PrototypedFrom mixed, 2 candidate delegates per level; histories of assignments "
+                       "DelegatesTo and PrototypedFrom mixed, about one in eight declared listenable=False, 2 candidate delegates per level; histories of assignments "
                        "through deferring attributes and on any candidate delegate (valid, out of range, wrong type), "
                        "re-pointing the delegate (top-level objects also to None), deleting local values (present or not); a case is "
                        "non-trivial if some step notified a handler or raised; distinct = distinct configuration+history")
